@@ -246,9 +246,17 @@ func (w *Worker) solver(kind string) *Solver {
 }
 
 var solverOrder = []string{"z3", "cvc5-int", "z3-new"}
+var solverOrderHard = []string{"cvc5-int", "z3", "z3-new"}
 
 func (w *Worker) solve(as []*Term, wantModel bool) (SatResult, map[string]uint64) {
-	for _, k := range solverOrder {
+	order := solverOrder
+	for _, a := range as {
+		if a.Hard {
+			order = solverOrderHard
+			break
+		}
+	}
+	for _, k := range order {
 		r, m := w.solver(k).Check(as, wantModel, nil)
 		if r != Unknown {
 			return r, m
